@@ -424,12 +424,26 @@ func (d *Decoder) Repair(checkParity bool) ([]string, error) {
 
 	var repairedPaths []string
 
-	for i, data := range d.fileData {
+	// d.fileData has one element per file entry saved in the
+	// volume set, in entry order, so walk the entries to find the
+	// one belonging to each missing file.
+	i := -1
+	for _, entry := range d.indexVolume.entries {
+		if !entry.header.Status.savedInVolumeSet() {
+			continue
+		}
+		i++
+		if i >= len(d.fileData) {
+			break
+		}
+		data := d.fileData[i]
 		if data != nil {
 			continue
 		}
 
-		entry := d.indexVolume.entries[i]
+		if entry.header.FileBytes > uint64(len(shards[i])) {
+			return repairedPaths, errors.New("file byte count too big")
+		}
 		data = shards[i][:entry.header.FileBytes]
 		if sixteenKHash(data) != entry.header.SixteenKHash {
 			return repairedPaths, errors.New("hash mismatch (16k) in reconstructed data")
